@@ -487,5 +487,34 @@ def r07_12(ctx):
     delegate(ctx, c06.r06_13, lambda c: True)
 
 
+def r07_13(ctx):
+    """R07.13 sdkconfig and the header agree on which options exist: Symbol.config_string is empty exactly when `_write_to_conf` is
+    false - the one flag Kconfig._header_string() decides on. A further reason to return nothing (an `option env` symbol, a type, a
+    value) drops the option from sdkconfig, CMake, JSON and auto.conf - all built on config_string - while the header still defines it."""
+    repo = ctx.repo
+    f = repo.func(f"{CORE}:Symbol.config_string")
+    h = repo.func(f"{CORE}:Kconfig._header_string")
+    ctx.analysed(f.qual, h.qual)
+    fl = Flow(f.node, resolver=Resolver(f.node)).run()
+    empties = [n for n in ast.walk(f.node) if isinstance(n, ast.Return) and isinstance(n.value, ast.Constant) and n.value.value == ""]
+    construct = "Symbol.config_string/empty exactly when _write_to_conf is false, as _header_string decides"
+    if not empties:
+        ctx.bad(construct, "config_string never returns the empty string: options that are not to be written appear in sdkconfig", f.loc())
+        return
+    bad = None
+    for r in empties:
+        gs = fl.guards_at(r) or set()
+        if (("self._write_to_conf", False) not in gs) or any(k != "self._write_to_conf" for k, _ in gs):
+            bad = (r, sorted(gs))
+    hdr_ok = any(k.endswith("._write_to_conf") for n in ast.walk(h.node) if isinstance(n, ast.If) for k in [ast.unparse(n.test).replace("not ", "")])
+    if bad:
+        ctx.bad(construct, f"`return \"\"` is reached under {bad[1]}: for such an option sdkconfig / CMake / JSON / auto.conf have no entry while the header, which "
+                "looks at _write_to_conf alone, still has its #define", f.loc(bad[0]))
+    elif not hdr_ok:
+        ctx.bad(construct, "_header_string no longer decides on _write_to_conf", h.loc())
+    else:
+        ctx.ok(construct, f.loc(empties[0]))
+
+
 def rules():
-    return [("R07.12", r07_12, 3), ("R07.11", r07_11, 1), ("R07.10", r07_10, 6), ("R07.9", r07_9, 6), ("R07.1", r07_1, 13), ("R07.6", r07_6, 8), ("R07.2", r07_2, 3), ("R07.3", r07_3, 4), ("R07.5", r07_5, 3), ("R07.7", r07_7, 4), ("R07.8", r07_8, 2)]
+    return [("R07.13", r07_13, 1), ("R07.12", r07_12, 3), ("R07.11", r07_11, 1), ("R07.10", r07_10, 6), ("R07.9", r07_9, 6), ("R07.1", r07_1, 13), ("R07.6", r07_6, 8), ("R07.2", r07_2, 3), ("R07.3", r07_3, 4), ("R07.5", r07_5, 3), ("R07.7", r07_7, 4), ("R07.8", r07_8, 2)]
